@@ -84,6 +84,8 @@ def _rand_droplet(rng, spec, cls=None, *, roll_axis=None):
         cls = str(rng.choice(opts))
     hm = float(np.mean(h))
     R = float(rng.uniform(0.3, 4.0) * hm)
+    if rng.random() < 0.04:
+        R = 0.0  # a vanished droplet is still a valid droplet
     # centre
     pos = np.zeros(dim)
     mode = rng.random()
@@ -134,8 +136,32 @@ def _levels(rng):
     return vmin, vmax
 
 
+def _tie_case(rng):
+    """Cells *exactly* on the interface: dyadic spacing and origin, centre on a cell centre,
+    radius a whole multiple of a spacing (exact in floating point)."""
+    dim = int(rng.choice([1, 2, 2, 3]))
+    nmax = {1: 16, 2: 10, 3: 6}[dim]
+    shape = [int(rng.integers(4, nmax + 1)) for _ in range(dim)]
+    h = [float(rng.choice([0.25, 0.5, 1.0, 2.0])) for _ in range(dim)]
+    lo = [float(rng.integers(-8, 9)) / 2 for _ in range(dim)]
+    spec = {"family": "cart", "bounds": [[lo[a], lo[a] + h[a] * shape[a]] for a in range(dim)], "shape": shape,
+            "periodic": [bool(rng.integers(0, 2)) for _ in range(dim)]}
+    cls = str(rng.choice(["SphericalDroplet", "DiffuseDroplet", "DiffuseDroplet", "DiffuseDroplet"]))
+    a = int(rng.integers(dim))
+    pos = [lo[b] + (int(rng.integers(shape[b])) + 0.5) * h[b] for b in range(dim)]
+    R = float(int(rng.integers(1, 4)) * h[a])
+    width = None
+    if cls == "DiffuseDroplet":
+        width = [0.0, 0.0, None, float(h[a])][int(rng.integers(4))]
+    return spec, {"cls": cls, "pos": pos, "radius": R, "width": width, "amps": None}
+
+
 def gen(rng, kind, tier):
     if kind == "single":
+        if rng.random() < 0.08:
+            spec, d = _tie_case(rng)
+            vmin, vmax = _levels(rng)
+            return {"grid": spec, "droplet": d, "vmin": vmin, "vmax": vmax, "route": "ctor", "tie": True}
         dim = int(rng.choice([1, 2, 2, 3, 3]))
         spec = _rand_grid(rng, dim, tier)
         d = _rand_droplet(rng, spec)
@@ -302,6 +328,10 @@ def run(case, rec):
             if bool(np.any(np.linalg.norm(
                     geom.cell_centers_cart(grid) - np.asarray(d["pos"]), axis=-1) == 0)):
                 rec.count("centre_exactly_on_cell_centre")
+        if case.get("tie"):
+            rec.count("cases_with_cells_exactly_on_the_interface")
+        if d["radius"] == 0:
+            rec.count("radius_zero_droplets")
         wk = "sharp" if (d["cls"] == "SphericalDroplet" or d["width"] == 0) else (
             "default" if d["width"] is None else "diffuse")
         rec.count(f"table:{d['cls']}|{geom.grid_label(spec)}|{wk}")
